@@ -813,8 +813,13 @@ class NetworkGraph(AbstractBaseIR):
                         else:
                             post_var = info['var']
                             post_op = info['op']
-                            expr_map[ev] = f'broadcast_post({post_var})'
-                            source_vars[post_var] = {'sources': [post_op], 'node': tnode, 'var': post_var}
+                            # the post-synaptic variable lives on the target node: give it its own input name when
+                            # it is called like the source variable of another node/operator (else the two entries
+                            # overwrite each other and the coupling reads the same variable twice)
+                            same_var = post_var == s_str and (tnode, post_op) != (snode, sop)
+                            post_str = f'{post_var}_post' if same_var else post_var
+                            expr_map[ev] = f'broadcast_post({post_str})'
+                            source_vars[post_str] = {'sources': [post_op], 'node': tnode, 'var': post_var}
 
                     if edge_de_sv_names:
                         # case 0c: dynamic edge
